@@ -505,6 +505,205 @@ class StoreInterp(LinInterp):
         return super().apply(fn, pos, kw, node)
 
 
+class HistoryInterp(StoreInterp):
+    """StoreInterp that runs *histories* of public calls on one instance (store a proposal, expire,
+    re-evaluate, report).  The proposal loops of the sweeps (`loops`, bound by role wherever they live)
+    are not run: each time one is reached, what it would iterate over is recorded under the label of
+    the step of the history that is being executed.  Configuration scalars of the instance are Unknown:
+    arithmetic on them stays Unknown and every test on them forks (so an age test explores 'expired'
+    and 'still valid' for every proposal)."""
+
+    def __init__(self, prog: Program, module: Any) -> None:
+        super().__init__(prog, module)
+        self.loops: list[ast.For] = []
+        self.step = ""
+        self.seen: list[tuple[str, list[Any]]] = []
+
+    def reset(self) -> None:
+        super().reset()
+        self.seen = []
+        self.step = ""
+
+    def stmt(self, s: ast.stmt) -> None:
+        if any(s is lp for lp in self.loops):
+            assert isinstance(s, ast.For)
+            self.seen.append((self.step, list(self.iterate(self.eval(s.iter), s.iter))))
+            return
+        if isinstance(s, ast.AugAssign) and isinstance(s.op, (ast.Sub, ast.BitAnd, ast.BitOr)) and self._aug_set(s):
+            return
+        super().stmt(s)
+
+    def binop(self, op: ast.operator, a: Any, b: Any, node: ast.AST) -> Any:
+        if isinstance(a, Unknown) or isinstance(b, Unknown):
+            return Unknown(f"({a!r} {type(op).__name__} {b!r})")
+        if isinstance(a, KeySet) and isinstance(op, (ast.Sub, ast.BitAnd, ast.BitOr)):
+            return self._set_algebra(a, {ast.Sub: "difference", ast.BitAnd: "intersection",
+                                         ast.BitOr: "union"}[type(op)], [b], node)
+        return super().binop(op, a, b, node)
+
+    # ---------------------------------------------------------------- the rest of the set / list / dict API
+    _SET_METHODS = ("copy", "clear", "difference_update", "difference", "intersection_update", "intersection",
+                    "update", "union")
+
+    def _set_algebra(self, s: KeySet, m: str, others: list[Any], node: ast.AST | None) -> Any:
+        """set.<m>(*others) on a set of proposals (membership by the proposals' equality key)."""
+        if m == "copy":
+            return self.keyset(self.iterate(s, node))  # type: ignore[arg-type]
+        if m == "clear":
+            s.clear()
+            s.objs.clear()
+            return None
+        items = [y for o in others for y in self.iterate(o, node)]  # type: ignore[arg-type]
+        keys = {self.key(y) for y in items}
+        mine = list(self.iterate(s, node))  # type: ignore[arg-type]
+        if m in ("update", "union"):
+            tgt = s if m == "update" else self.keyset(mine)
+            for y in items:
+                self._set_op(tgt, "add", y, node)
+            return None if m == "update" else tgt
+        if m in ("difference", "difference_update"):
+            keep = [x for x in mine if self.key(x) not in keys]
+        else:
+            keep = [x for x in mine if self.key(x) in keys]
+        if m in ("difference", "intersection"):
+            return self.keyset(keep)
+        for x in mine:
+            if not any(x is k for k in keep):
+                self._set_op(s, "discard", x, node)
+        return None
+
+    def get_attr(self, base: Any, attr: str, node: ast.AST) -> Any:
+        if isinstance(base, KeySet) and attr in self._SET_METHODS:
+            return ("setalgebra", base, attr)
+        if isinstance(base, list) and attr in ("remove", "copy", "clear"):
+            return ("listv", base, attr)
+        if isinstance(base, dict) and attr in ("clear", "copy", "update"):
+            return ("dictv", base, attr)
+        return super().get_attr(base, attr, node)
+
+    def apply(self, fn: Any, pos: list[Any], kw: dict[str, Any], node: ast.AST) -> Any:
+        if isinstance(fn, tuple) and fn and fn[0] == "setalgebra" and not kw:
+            return self._set_algebra(fn[1], fn[2], pos, node)
+        if isinstance(fn, tuple) and fn and fn[0] == "listv" and not kw:
+            lst, m = fn[1], fn[2]
+            if m == "copy":
+                return list(lst)
+            if m == "clear":
+                lst[:] = []
+                return None
+            for i, x in enumerate(lst):
+                if x is pos[0] or self.concrete_eq(x, pos[0], node):
+                    del lst[i]
+                    return None
+            raise _Raise("ValueError", node)
+        if isinstance(fn, tuple) and fn and fn[0] == "dictv":
+            d, m = fn[1], fn[2]
+            if m == "clear" and not pos and not kw:
+                d.clear()
+                return None
+            if m == "copy" and not pos and not kw:
+                return dict(d)
+            if m == "update" and len(pos) == 1 and isinstance(pos[0], dict) and not kw:
+                d.update(pos[0])
+                return None
+            raise AnalysisError(f"dict.{m} call not interpretable (line {getattr(node, 'lineno', '?')})")
+        return super().apply(fn, pos, kw, node)
+
+    def builtin(self, name: str, pos: list[Any], kw: dict[str, Any], node: ast.AST) -> Any:
+        if name == "frozenset" and not kw:
+            return self.keyset(self.iterate(pos[0], node) if pos else [])
+        if name == "len" and pos and isinstance(pos[0], KeySet):
+            return len(pos[0])
+        return super().builtin(name, pos, kw, node)
+
+    def eval(self, e: ast.AST | None) -> Any:
+        if isinstance(e, ast.SetComp):
+            return self.keyset(self.comprehension(e))
+        if isinstance(e, ast.Set):
+            return self.keyset([self.eval(x) for x in e.elts])
+        return super().eval(e)
+
+    def _aug_set(self, s: ast.AugAssign) -> bool:
+        tgt = s.target
+        if isinstance(tgt, ast.Name):
+            load: ast.AST = ast.Name(id=tgt.id, ctx=ast.Load())
+        elif isinstance(tgt, ast.Attribute):
+            load = ast.Attribute(value=tgt.value, attr=tgt.attr, ctx=ast.Load())
+        elif isinstance(tgt, ast.Subscript):
+            load = ast.Subscript(value=tgt.value, slice=tgt.slice, ctx=ast.Load())
+        else:
+            return False
+        cur = self.eval(ast.copy_location(load, tgt))
+        if not isinstance(cur, KeySet):
+            return False
+        m = {ast.Sub: "difference_update", ast.BitAnd: "intersection_update", ast.BitOr: "update"}[type(s.op)]
+        self._set_algebra(cur, m, [self.eval(s.value)], s)  # set.__isub__ & co. mutate in place
+        return True
+
+    def unaryop(self, op: ast.unaryop, v: Any, node: ast.AST) -> Any:
+        if isinstance(v, Unknown) and not isinstance(op, ast.Not):
+            return v
+        return super().unaryop(op, v, node)
+
+    def run_step(self, label: str, fn: FuncInfo, args: list[Any]) -> tuple[Any, list[list[Any]]]:
+        """Call `fn` inside the current abstract run; returns its result and what the sweeps it reached
+        iterated over."""
+        self.step = label
+        n = len(self.seen)
+        res = self.call_func(fn, args, {})
+        return res, [members for _lbl, members in self.seen[n:]]
+
+
+def fresh_state(prog: Program, cls: Any, it: StoreInterp) -> Obj:
+    """The instance as `__init__` leaves it: an attribute bound to an empty container of the language
+    is that container; every other attribute (configuration derived from the arguments) is an Unknown
+    scalar, a container built any other way is in an arbitrary state."""
+    fields: dict[str, Any] = {}
+    init = prog.resolve_method(cls, "__init__")
+    if init is None or not init.params:
+        raise AnalysisError(f"{cls.qual}: no __init__ to take the initial state of an instance from")
+    me = init.params[0]
+    for n in walk_no_nested(init.node):
+        tgt = val = None
+        if isinstance(n, ast.Assign) and len(n.targets) == 1:
+            tgt, val = n.targets[0], n.value
+        elif isinstance(n, ast.AnnAssign):
+            tgt, val = n.target, n.value
+        if not (isinstance(tgt, ast.Attribute) and isinstance(tgt.value, ast.Name) and tgt.value.id == me):
+            continue
+        ctor = val.func.id if isinstance(val, ast.Call) and isinstance(val.func, ast.Name) and not val.args \
+            and not val.keywords else None
+        if (isinstance(val, ast.Dict) and not val.keys) or ctor == "dict":
+            fields[tgt.attr] = {}
+        elif (isinstance(val, ast.List) and not val.elts) or ctor == "list":
+            fields[tgt.attr] = []
+        elif ctor == "set":
+            fields[tgt.attr] = it.keyset([])
+        elif isinstance(val, (ast.Dict, ast.Set, ast.List, ast.DictComp, ast.SetComp, ast.ListComp)) or (
+                isinstance(val, ast.Call) and isinstance(val.func, ast.Name)
+                and val.func.id in ("dict", "set", "list", "defaultdict", "OrderedDict", "deque")):
+            fields[tgt.attr] = Havoc(tgt.attr)
+        else:
+            fields[tgt.attr] = Unknown(f"self.{tgt.attr}")
+    return Obj(cls.name, **fields)
+
+
+def proposals_in(v: Any, depth: int = 0) -> list[Any]:
+    """The proposal records held by a bucket, whatever container of the language it is (set / list /
+    tuple, dict by any key, nested one level: a dict of lists per priority ...)."""
+    if isinstance(v, Obj):
+        return [v] if v.cls == "Proposal" else []
+    if depth > 3:
+        return []
+    if isinstance(v, KeySet):
+        return [x for o in v.objs.values() for x in proposals_in(o, depth + 1)]
+    if isinstance(v, dict):
+        return [x for o in list(v.keys()) + list(v.values()) for x in proposals_in(o, depth + 1)]
+    if isinstance(v, (list, tuple, set, frozenset)):
+        return [x for o in v for x in proposals_in(o, depth + 1)]
+    return []
+
+
 # ---------------------------------------------------------------------------------------------
 # sweep structure and roles
 # ---------------------------------------------------------------------------------------------
